@@ -1,7 +1,7 @@
 import MdIt.Inline
 import MdIt.Drv.Token
 /-! Driver: `inline <maxNesting> <rules> <fragjoin> <textjoin> <src>` with rules a string over
-`t` (text) `n` (newline) `e` (escape), in chain order -/
+`t` (text) `n` (newline) `e` (escape) `b` (backticks), in chain order -/
 namespace MdIt.Drv
 open MdIt.Proto
 
@@ -9,6 +9,7 @@ def ruleOfChar : Char → Option IRule
   | 't' => some ruleText
   | 'n' => some ruleNewline
   | 'e' => some ruleEscape
+  | 'b' => some ruleBackticks
   | _ => none
 
 def inlineLine (toks : List String) : String :=
